@@ -1,52 +1,79 @@
 package main
 
 import (
-	"encoding/hex"
-	"encoding/json"
 	"fmt"
-	"io/ioutil"
-	"os"
+	"math/big"
+	"time"
 
-	"github.com/lianxiangcloud/linkchain/libs/common"
-	"github.com/lianxiangcloud/linkchain/libs/crypto"
-	dbm "github.com/lianxiangcloud/linkchain/libs/db"
-	"github.com/lianxiangcloud/linkchain/libs/trie"
+	"verif/h/internal/chainkit"
+	_ "verif/shim/goshim"
 )
 
-type pl [][]byte
-
-func (p *pl) Put(k, v []byte) error { *p = append(*p, append([]byte{}, v...)); fmt.Printf("  put key=%x keccak(val)=%x len=%d\n", k, crypto.Keccak256(v), len(v)); return nil }
-
 func main() {
-	b, _ := ioutil.ReadFile(os.Args[1])
-	var d struct {
-		Witness []struct{ K, Key, Val string }
+	t0 := time.Now()
+	g, err := chainkit.BuildGenesis(chainkit.GenesisOpts{Seed: 1, NumAccounts: 4, Powers: []int64{10, 10, 10, 10}})
+	if err != nil {
+		panic(err)
 	}
-	json.Unmarshal(b, &d)
-	disk := dbm.NewMemDB()
-	tdb := trie.NewDatabase(disk)
-	t, _ := trie.New(common.EmptyHash, tdb)
-	for i, o := range d.Witness {
-		k, _ := hex.DecodeString(o.Key)
-		v, _ := hex.DecodeString(o.Val)
-		switch o.K {
-		case "put":
-			t.TryUpdate(k, v)
-		case "del":
-			t.TryDelete(k)
-		case "hash":
-			t.Hash()
-		case "commit":
-			t.Commit(nil)
-		case "reopen":
-			root := t.Hash()
-			tdb.Commit(root, false)
-			t, _ = trie.New(root, tdb)
-		}
-		_ = i
+	fmt.Println("genesis", time.Since(t0))
+	t0 = time.Now()
+	a, err := g.NewNode(chainkit.NodeOpts{})
+	if err != nil {
+		panic(err)
 	}
-	fmt.Printf("root %x\n", t.Hash())
-	k, _ := hex.DecodeString(os.Args[2])
-	var p pl
-	t.Prove(k, 0, &p)
+	b, err := g.NewNode(chainkit.NodeOpts{})
+	if err != nil {
+		panic(err)
+	}
+	fmt.Println("nodes", time.Since(t0), "vals", a.Status.Validators.Size())
+	var lastCommit = (*chainkitCommit)(nil)
+	_ = lastCommit
+	var lc = a.App.LoadSeenCommit(0)
+	_ = lc
+	var commit = (interface{})(nil)
+	_ = commit
+	nonce := uint64(0)
+	var last = (*struct{})(nil)
+	_ = last
+	var c = (*commitT)(nil)
+	_ = c
+	var prev = (*cT)(nil)
+	_ = prev
+	var lastC = (interface{})(nil)
+	_ = lastC
+	run(g, a, b, &nonce)
 }
+
+type chainkitCommit struct{}
+type commitT struct{}
+type cT struct{}
+
+func run(g *chainkit.Genesis, a, b *chainkit.Node, nonce *uint64) {
+	var lc = (*typesCommit)(nil)
+	_ = lc
+	t0 := time.Now()
+	var commit = (interface{})(nil)
+	_ = commit
+	lastCommit := chainkit.NilCommit()
+	for h := 1; h <= 5; h++ {
+		for i := 0; i < 3; i++ {
+			tx, err := chainkit.NewTransfer(g.Accounts[0], *nonce, g.Accounts[1].Addr, big.NewInt(1e18))
+			if err != nil {
+				panic(err)
+			}
+			*nonce++
+			if err := a.Mempool.AddTx("", tx); err != nil {
+				fmt.Println("addtx err", err)
+			}
+		}
+		blk, c, err := a.Step(g, lastCommit, b)
+		if err != nil {
+			panic(err)
+		}
+		lastCommit = c
+		fmt.Println("height", blk.Height, "txs", blk.NumTxs, "state", blk.StateHash.String()[:10], "balB", b.App.GetBalance(g.Accounts[1].Addr), "found", a.App.GetBalance(chainkit.FoundationAddr()))
+	}
+	fmt.Println("5 blocks", time.Since(t0))
+}
+
+type typesCommit struct{}
